@@ -40,7 +40,11 @@ def register(P):
 
     P["PROPS"]["C06"] = {
             "module": "Asts.Props.C06",
-            "runs": [{"engine": "podcontrol", "quick": 20000, "thorough": 300000, "enum_thorough": [], "proj": proj_podcontrol}],
+            "runs": [{"engine": "podcontrol", "quick": 20000, "thorough": 300000, "enum_thorough": [], "proj": proj_podcontrol},
+                     # pods as the real reconcile hands them to the pod control (several built from one decoded template in one sync):
+                     # identity, claim volumes and template of every created pod, observed at the create call
+                     {"engine": "reconcile", "quick": 20000, "thorough": 200000, "enum_thorough": ["small"],
+                      "proj": lambda c, o: (o.get("idbad"), o.get("tplbad")), "clauses": ["C06."]}],
             "rule": PC_RULE,
             "assumptions": [
                 "a claim 'exists' when the PVC informer cache returns it or a create of it succeeded (the controller cannot see a claim deleted out-of-band while the cache still shows it)",
